@@ -263,6 +263,39 @@ def rule_namemap(chk):
                 loc = any(x.get("k") == "Break" for x in F.walk(iff["then"]))
     chk.ob("C15.unique/locals", loc, "generated local names avoid all local names and all used global names" if loc else
            "the local-variable renaming loop no longer checks `!all_local_names.contains(c) && used_names_all_scopes.insert(c)`", where(b))
+    # generated global names are published to the set the local-variable phase consults
+    consult = None
+    for iff in F.exprs(t, "If"):
+        c = F.strip(iff["cond"])
+        if c.get("k") == "Call" and short(c.get("fn") or "") == "contains" and "HashSet" in (c.get("fn") or "") and \
+                any(x.get("k") == "Loop" for x in F.walk(iff["then"])) and "else" in iff:
+            consult = iff
+    if chk.anchor("C15.anchor/local-conflict-test", consult, "`if <all-scopes set>.contains(local name) { rename loop } else { keep }`", where(b)):
+        allv = F.leftmost_var(F.strip(consult["cond"])["args"][0])
+        ifs = list(F.exprs(t, "If"))
+        n = bad = 0
+        for x in F.walk(t):
+            if x.get("k") != "Break" or "e" not in x or any(y is x for y in F.walk(consult)):
+                continue
+            enclosing = [iff for iff in ifs if any(y is x for y in F.walk(iff["then"]))]
+            if not enclosing:
+                continue
+            inner = min(enclosing, key=lambda iff: sum(1 for _ in F.walk(iff)))
+            bv = F.leftmost_var(x["e"])
+            n += 1
+            pub = False
+            for c in F.exprs(inner["then"], "Call"):
+                if short(c.get("fn") or "") == "insert" and "HashSet" in (c.get("fn") or "") and len(c.get("args", [])) > 1:
+                    sv, av = F.leftmost_var(c["args"][0]), F.leftmost_var(c["args"][1])
+                    if sv is not None and allv is not None and sv["id"] == allv["id"] and av is not None and bv is not None and av["id"] == bv["id"]:
+                        pub = True
+            if not pub:
+                bad += 1
+        ok = n >= 1 and bad == 0
+        chk.ob("C15.unique/generated-visible-to-locals", ok,
+               "every generated global `name_N` is inserted into the set the local-variable phase tests (%d site)" % n if ok else
+               "a generated global name `name_N` is accepted without being recorded in `%s`, the set the local-variable phase tests: "
+               "a local spelled like the generated name is emitted unchanged and shadows the renamed symbol" % ((allv or {}).get("name", "?")), where(b))
     # seeded: used_names = reserved_name_set.clone() per scope, reserved_name_set filled from reserved_names
     seeded = False
     fills = False
